@@ -1,4 +1,4 @@
-import GoSquare.Properties.C20
+import GoSquare.Proofs.C20Core
 import GoSquare.Properties.C10
 import GoSquare.Proofs.SquareWF
 import GoSquare.Model.Builder
